@@ -66,6 +66,51 @@ func c18PresenceScans(c *core.Ctx) {
 				if len(loops) == 0 || cond == nil {
 					return true
 				}
+				// an `if` between the outermost loop and the test restricts the scan to a part of the payload when its
+				// condition reads element data addressed by a loop variable (the Hessian rows of variables with a non-zero
+				// first derivative only)
+				restrict := ""
+				{
+					lv := map[types.Object]bool{}
+					for _, l := range loops {
+						if init, ok := l.Init.(*ast.AssignStmt); ok && init.Tok == token.DEFINE {
+							for _, lh := range init.Lhs {
+								if li, ok := lh.(*ast.Ident); ok {
+									lv[info.Defs[li]] = true
+								}
+							}
+						}
+					}
+					inLoop := false
+					for _, s := range stack {
+						if s == ast.Node(loops[0]) {
+							inLoop = true
+						}
+						is, ok := s.(*ast.IfStmt)
+						if !ok || !inLoop || is == cond {
+							continue
+						}
+						ast.Inspect(is.Cond, func(m ast.Node) bool {
+							switch x := m.(type) {
+							case *ast.IndexExpr:
+								if li, ok := ast.Unparen(x.Index).(*ast.Ident); ok && lv[info.Uses[li]] {
+									restrict = types.ExprString(is.Cond)
+								}
+							case *ast.CallExpr:
+								for _, a := range x.Args {
+									if li, ok := ast.Unparen(a).(*ast.Ident); ok && lv[info.Uses[li]] {
+										restrict = types.ExprString(is.Cond)
+									}
+								}
+							}
+							return true
+						})
+					}
+				}
+				if restrict != "" {
+					c.Fail("C18.R16", cons, "scan setting "+id.Name, as.Pos(), "the scan that sets "+id.Name+" runs only where "+restrict+" holds: the entries it skips are never inspected before the field is omitted")
+					return true
+				}
 				// the flag must be declared outside the outermost loop (it survives the scan)
 				if v.Pos() >= loops[0].Pos() && v.Pos() < loops[0].End() {
 					return true
